@@ -170,6 +170,13 @@ Definition alt_sem (alts : list str) (x : str) : bool :=
   existsb (fun a => if str_eqb a RE_EMPTY then is_empty_str x else str_eqb a x) alts.
 
 
+(* all label sets mention the same label names *)
+Definition homogeneous_names (lsets : list labels) : bool :=
+  match lsets with
+  | [] => true
+  | l0 :: r => forallb (fun l => list_eqb str_eqb (map fst l) (map fst l0)) r
+  end.
+
 (* ---- concrete matcher: position in the request, name, truth table of the real
    Matcher.Matches over every string occurring in the case ---- *)
 Record matcher := MkM { mid : nat; mname : str; mtbl : list (str * bool) }.
@@ -218,18 +225,40 @@ Definition corr_ok (c : case) : bool :=
 (* the property on the implementation's own decisions: a store that was not
    queried because of its time range or external labels (or because the proxy's
    selector labels contradict the request) has no series selected by the request *)
-Definition pred_ok (c : case) : bool :=
+Definition pred_skip (c : case) : bool :=
   match c with
   | CPrune sel ms dbg son mint maxt stores o_ext o_reasons o_kept o_lsets =>
       let no_series_selected (p : store * list (labels * list Z)) :=
         forallb (fun ser => negb (series_of_store_b sel (fst p) ser && selected_b mname mmatch ms mint maxt ser)) (snd p) in
-      match o_ext with
-      | None => forallb no_series_selected stores
-      | Some _ =>
-          forallb (fun pr => if (snd pr =? 1) || (snd pr =? 4) then no_series_selected (fst pr) else true)
-                  (combine stores o_reasons)
-      end
+      (match o_ext with
+       | None => forallb no_series_selected stores
+       | Some _ =>
+           forallb (fun pr => if (snd pr =? 1) || (snd pr =? 4) then no_series_selected (fst pr) else true)
+                   (combine stores o_reasons)
+       end)
   | CSelM lsets o_ms probes =>
       (* the extra matchers sent for the kept label sets accept every series that carries one of them *)
       forallb (fun p => negb (existsb (extends_b (fst p)) lsets) || forallb (fun b => b) (snd p)) probes
   end.
+
+Definition pred_selector (c : case) : bool :=
+  match c with
+  | CPrune sel ms dbg son mint maxt stores o_ext o_reasons o_kept o_lsets =>
+      (* with a TSDB selector: the extra matchers generated from the label sets matchingStores returned
+         go to every queried store; they must not skip data of a queried store that belongs to one of
+         its KEPT label sets. Checked when all label sets of the case have the same label names (for
+         other cases see the known finding on MatchersForLabelSets). *)
+      (if son && homogeneous_names (concat (map (fun p => sexts (fst p)) stores)) then
+            forallb (fun ip =>
+                let '(i, p) := ip in
+                negb (existsb (Nat.eqb i) o_kept)
+                || forallb (fun ser =>
+                       negb (series_of_store_b sel (fst p) ser && selected_b mname mmatch ms mint maxt ser
+                             && existsb (extends_b (fst ser)) (kept_lsets (fst p)))
+                       || forallb (fun n => alt_sem (sel_alts n o_lsets) (lget (fst ser) n)) (sel_names o_lsets)) (snd p))
+              (combine (seq 0 (length stores)) stores)
+          else true)
+  | CSelM _ _ _ => true
+  end.
+
+Definition pred_ok (c : case) : bool := pred_skip c && pred_selector c.
